@@ -31,7 +31,7 @@ pub fn gen_case(rng: &mut Rng, case: u64) -> MpCase {
     let mut v0 = max_vel * u0;
     let mut v1 = max_vel * u1;
     // non-zero but tiny end velocity / acceleration still decide the end command's kind
-    let tiny = |rng: &mut Rng| (rng.sign() * rng.log_uniform(1e-12, 2e-7)) as f32;
+    let tiny = |rng: &mut Rng| if rng.chance(0.3) { (rng.sign() as f32) * f32::from_bits(1 + rng.below(0x7F_FFFF) as u32) } else { (rng.sign() * rng.log_uniform(1e-12, 2e-7)) as f32 }; // incl. subnormals
     let end_acc = if rng.chance(0.3) { if rng.chance(0.2) { tiny(rng) } else { rng.moderate_nz(1e2) } } else { 0.0 };
     if rng.chance(0.05) { v1 = tiny(rng); }
     let start_acc = if rng.chance(0.3) { rng.moderate(1e2) } else { 0.0 };
@@ -80,8 +80,11 @@ pub fn gen_case(rng: &mut Rng, case: u64) -> MpCase {
     }
     if rng.chance(0.02) {
         // degenerate: zero displacement at cruise speed => a profile of zero duration (t1 = t2 = t3 = 0) is accepted
+        // (with both speeds at -max_vel the unchanged constructor, whose tie-break is "forward", accepts a there-and-back
+        // move of duration 4*max_vel/max_acc; a constructor that breaks the tie by the start velocity gives zero duration)
         let p = rng.moderate(1e4);
-        return MpCase { start: State::new_raw(p, max_vel, start_acc), end: State::new_raw(p, max_vel, end_acc), max_vel, max_acc, comfortable: false };
+        let v = if rng.chance(0.5) { max_vel } else { -max_vel };
+        return MpCase { start: State::new_raw(p, v, start_acc), end: State::new_raw(p, v, end_acc), max_vel, max_acc, comfortable: false };
     }
     MpCase {
         start: State::new_raw(ps as f32, v0, start_acc),
